@@ -22,14 +22,15 @@ decode_borrow/decode_copy and InChunk::decode_borrow/decode_copy are the same sk
 push/push_copy substitution, and encode_anchored / the ZeroCopySink impl only delegate; (R2.5) bounded chunks:
 every addition to current_chunk_size is followed by the assertion current <= max, the chunk is closed exactly
 when the limit or a stuff sequence is reached, terminate asserts current < max before writing the last header
-(the message ends on a short chunk).
+(the message ends on a short chunk); (R2.6) find_stuff_sequence is a single in-order loop over every window of its
+whole argument returning the first window equal to STUFF_SEQUENCE (no block skipping).
 NOT decided: absence of FE FD inside and across payload slices for all inputs, split-independence as an
 equality of outputs, the numeric length bound (value-level).
 """
 
-ASSUMPTIONS = ['find_stuff_sequence returns the first occurrence (value-level)', 'OwningIovec delivers what was pushed (C03/C04)']
+ASSUMPTIONS = ['OwningIovec delivers what was pushed (C03/C04)']
 
-FLOORS = {'R2.1': 4, 'R2.2': 4, 'R2.3': 4, 'R2.4': 8, 'R2.5': 6}
+FLOORS = {'R2.1': 4, 'R2.2': 4, 'R2.3': 4, 'R2.4': 8, 'R2.5': 6, 'R2.6': 3}
 
 ES = 'hcobs::encoder::EncoderState'
 
@@ -277,4 +278,46 @@ def r2_5(cx):
     cx.check(pre, 'room-left', co, None, 'the search runs only where current < max (remaining > 0)', fail_detail='remaining can be 0 when the window is computed')
 
 
-RULES = [('R2.1', r2_1), ('R2.2', r2_2), ('R2.3', r2_3), ('R2.4', r2_4), ('R2.5', r2_5)]
+def check_find_stuff(cx):
+    """find_stuff_sequence examines every adjacent byte pair of its whole argument, in order, and returns the first match"""
+    prog = cx.prog
+    fn = prog.fn('hcobs::find_stuff_sequence')
+    seq = prog.const_bytes('hcobs::STUFF_SEQUENCE').hex()
+    heads = fn.loop_headers()
+    cx.check(len(heads) == 1, 'scan:one-loop', fn, None, 'a single loop', fail_detail='%d loops: not a plain linear scan (blocks skipped or searched separately can hide a sequence that straddles them)' % len(heads))
+    nxt = [cs for cs in fn.calls('Iterator>::next')]
+    ok_it = False
+    if len(nxt) == 1:
+        it = nxt[0].arg(0)
+        en = [c for c in it.calls('enumerate')]
+        wi = [c for c in it.calls('windows')]
+        ok_it = len(en) == 1 and len(wi) == 1 and wi[0].args[0].strip().kind == 'param' and wi[0].args[1].is_const_int(2) and \
+            any(c.pos == wi[0].pos for c in en[0].args[0].calls('windows')) and len(list(it.calls())) <= 4
+    cx.check(ok_it, 'scan:all-windows', fn, nxt[0].loc() if nxt else None, 'iterates bytes.windows(2).enumerate() over the whole argument',
+             fail_detail='the scan does not run over every window of the whole argument')
+    somes = [pos for pos, st in fn.statements() if st['k'] == 'assign' and st['pl']['l'] == 0 and st['rv']['k'] == 'agg' and st['rv']['variant'] == 'Some']
+    nones = [pos for pos, st in fn.statements() if st['k'] == 'assign' and st['pl']['l'] == 0 and st['rv']['k'] == 'agg' and st['rv']['variant'] == 'None']
+    ok_s = len(somes) == 1 and len(nones) == 1 and len(nxt) == 1
+    if ok_s:
+        pos = somes[0]
+        v = fn.operand_expr(fn.blocks[pos.bb]['st'][pos.idx]['rv']['ops'][0]).strip()
+        idx_ok = v.kind == 'proj' and any(c.pos == nxt[0].pos for c in v.calls()) and len(list(v.calls())) == len(list(nxt[0].arg(0).calls())) + 1 \
+            and not any(n.kind == 'binop' for n in v.walk())
+        eq_ok = False
+        for e, val, edge in fn.facts_at(pos.bb):
+            x = e.strip()
+            if val is True and x.kind == 'call' and x.op.endswith('::eq') and any(k.info.get('ref_bytes') == seq for k in x.consts()) and \
+                    any(c.pos == nxt[0].pos for c in x.calls()):
+                eq_ok = True
+        none_ok = any(e.kind == 'discr' and val == ('in', frozenset([0])) and any(c.pos == nxt[0].pos for c in e.calls()) for e, val, edge in fn.facts_at(nones[0].bb))
+        ok_s = idx_ok and eq_ok and none_ok
+    cx.check(ok_s, 'scan:first-match', fn, None, 'Some(i) exactly at the first window equal to STUFF_SEQUENCE (i = enumerate index), None only when exhausted',
+             fail_detail='the result is not (index of the first window == STUFF_SEQUENCE | None at exhaustion)')
+
+
+def r2_6(cx):
+    """find_stuff_sequence is an exhaustive in-order scan (a sequence straddling skipped blocks would leak into the output)"""
+    check_find_stuff(cx)
+
+
+RULES = [('R2.1', r2_1), ('R2.2', r2_2), ('R2.3', r2_3), ('R2.4', r2_4), ('R2.5', r2_5), ('R2.6', r2_6)]
